@@ -264,6 +264,21 @@ def pinned_cases(lf, tier):
             files = {names[0]: ftree.text_for(lf, cfg_, pair[0], 700 + v, order), names[1]: ftree.text_for(lf, cfg_, pair[1], 710 + v, order + 1)}
             targets = [list(names), [names[1], names[0]], ["."], ["./" + names[0], names[1]]][order]
             cases.append(ftree.make_case(files, opts, targets, {}, None, tag=f"case-twins:{pair[0]}{pair[1]}:{order}"))
+    # a symbolic link to a regular file, met in a directory or named, is that file under the link's name (the target
+    # sits outside the walked directory under a name no glob selects, so that it is reached once)
+    for v, fmt in enumerate(FORMATS):
+        for ci, cls in enumerate(("U", "P", "F", "X")):
+            opts = {"check": True, "format": fmt, "verify": False, "sort": False, "threads": THREADS[(v + ci) % 3]}
+            cfg_ = ftree.config_for(opts)
+            files = {"store/real%d.txt" % ci: ftree.text_for(lf, cfg_, cls, 760 + ci, v),
+                     "d/plain.lua": ftree.text_for(lf, cfg_, "F", 770 + ci, v),
+                     "d/link.lua": {"symlink": "../store/real%d.txt" % ci},
+                     "store/other%d.txt" % ci: ftree.text_for(lf, cfg_, "U", 780 + ci, v),
+                     "d/sub/deep_link.luau": {"symlink": "../../store/other%d.txt" % ci}}
+            if (v + ci) % 2:
+                del files["d/sub/deep_link.luau"]
+            targets = [["d"], ["d/link.lua", "d/plain.lua"], ["./d"], ["d/plain.lua", "d/link.lua"]][(v + ci) % 4]
+            cases.append(ftree.make_case(files, opts, targets, {}, None, tag=f"link-to-file:{cls}:{v}"))
     if tier == "thorough":
         for a in SEQ_CLASSES:
             for b in SEQ_CLASSES:
